@@ -381,6 +381,14 @@ def isRet : Ev → Bool
   | .ret _ _ _ => true
   | _ => false
 
+def isWaitRes : Ev → Bool
+  | .ret _ _ (.waitResult _) => true
+  | _ => false
+
+def isCloseCall : Ev → Bool
+  | .call _ _ .close => true
+  | _ => false
+
 /-- some event satisfying `p` has a clock strictly below `k` -/
 def before (l : Log) (k : Nat) (p : Ev → Bool) : Bool := l.any (fun x => x.1 < k && p x.2)
 
@@ -400,14 +408,20 @@ def mustIds (c : Cfg) : List Nat :=
 /-- a reason why the context may have ended before clock `k` -/
 def ctxEndBefore (c : Cfg) (l : Log) (k : Nat) : Bool :=
   !c.run.present || before l k (isEnd .run)
-  || before l k (fun e => match e with | .call _ _ .close => true | _ => false)
+  || before l k isCloseCall
   || l.any (fun x => match x.2 with
       | .cancelParent p => x.1 < k && l.any (fun y => match y.2 with | .call _ _ (.start q) => p == q | _ => false)
       | _ => false)
 
-/-- the clock of the call event of operation `i` of thread `t` -/
-def callClock (l : Log) (t i : Nat) : Option Nat :=
-  (l.find? (fun x => match x.2 with | .call t' i' _ => t' == t && i' == i | _ => false)).map (·.1)
+/-- the log holds a `Running()` call of operation `i` of thread `t` before which no Wait had returned a result -/
+def runningCallOk (l : Log) (t i : Nat) : Bool :=
+  l.any (fun y => y.2 == .call t i .running && !before l y.1 isWaitRes)
+
+/-- every call in the log has returned -/
+def complete (l : Log) : Bool :=
+  l.all (fun x => match x.2 with
+    | .call t i _ => l.any (fun y => match y.2 with | .ret t' i' _ => t' == t && i' == i | _ => false)
+    | _ => true)
 
 /-- the per-event obligations -/
 def evOk (c : Cfg) (l : Log) (k : Nat) : Ev → Bool
@@ -419,19 +433,15 @@ def evOk (c : Cfg) (l : Log) (k : Nat) : Ev → Bool
   | .ret _ _ (.waitResult ids) =>
     phasesDoneBefore c l k && (mustIds c).all (fun i => ids.contains i) && (!(mustIds c).isEmpty || ids.isEmpty)
   | .ret _ _ .startReturned => phasesDoneBefore c l k
-  | .ret t i (.running true) =>
-    -- no Wait had returned a result before this Running() call began
-    match callClock l t i with
-    | some k0 => !before l k0 (fun e => match e with | .ret _ _ (.waitResult _) => true | _ => false)
-    | none => false
+  | .ret t i (.running true) => runningCallOk l t i   -- no Wait had returned a result before this call began
   | _ => true
 
-/-- the whole property on a log; `complete` = every call in it has returned -/
+/-- the whole property on a log -/
 def allowedLog (c : Cfg) (l : Log) : Bool :=
   l.all (fun x => evOk c l x.1 x.2)
   && countEv l (isBegin .run) ≤ 1 && countEv l (isBegin .shutdown) ≤ 1
   && countEv l (isBegin .cleanup) ≤ 1 && countEv l (isBegin .handler) ≤ 1
   && countEv l isStartNil ≤ 1
-  && (countEv l isCall != countEv l isRet || countEv l isStartCall == 0 || countEv l isStartNil == 1)
+  && (!complete l || countEv l isStartCall == 0 || countEv l isStartNil == 1)
 
 end FunModel.Service
